@@ -695,4 +695,32 @@ func Canon(f *File) string {
 	return pr.Layout(CanonGap(pr.Toks)).Src
 }
 
+// Dense is the whole file on one line: a single blank wherever the canonical layout has a line break.
+func Dense(f *File) string {
+	pr := PrintFile(f)
+	return pr.Layout(func(i int, mustSep bool) string {
+		if i == 0 {
+			return ""
+		}
+		if i == len(pr.Toks) {
+			return "\n"
+		}
+		if !mustSep && !pr.Toks[i].NL && tightBefore(pr.Toks[i-1].S, pr.Toks[i].S) {
+			return ""
+		}
+		return " "
+	}).Src
+}
+
+// CanonMaybeDense is Canon for five files in six and Dense for the sixth (chosen by the canonical text, so
+// that a case always prints the same way): constructs that the canonical layout puts on lines of their own
+// - cases, statements, table rows - then share one line.
+func CanonMaybeDense(f *File) string {
+	c := Canon(f)
+	if hash64(c)%6 == 0 {
+		return Dense(f)
+	}
+	return c
+}
+
 func (pl *Placed) String() string { return fmt.Sprintf("%d tokens, %d lines", len(pl.Line), pl.NLines) }
